@@ -472,6 +472,13 @@ class World:
         self.install()
         env = self.make_env()
         db = dbmod.DB(env)
+        if getattr(self, 'small_files', False):
+            # the three flat files are split into physical files of 16 MB / 2 MB; scaled down (two records per
+            # physical file, record-aligned as in the real sizes) so that reads and writes cross file boundaries
+            import electrumx.lib.util as util
+            db.headers_file = util.LogicalFile('meta/headers', 2, 160)
+            db.tx_counts_file = util.LogicalFile('meta/txcounts', 2, 16)
+            db.hashes_file = util.LogicalFile('meta/hashes', 4, 64)
         return env, db
 
     def close(self):
